@@ -44,18 +44,19 @@ type dpStep struct {
 	p, i, eni, extra, aset  int
 	dp, fam, how            string
 	def, multi, trunk, peer bool
+	keep                    bool // the pod is given the address the previous pod of this slot held (possibly on another ENI now)
 }
 
 func dpStepOf(m vt.M) dpStep {
 	return dpStep{a: vt.Str(m["a"]), p: vt.Int(m["p"]), i: vt.Int(m["i"]), eni: vt.Int(m["eni"]), extra: vt.Int(m["extra"]),
 		aset: vt.Int(m["aset"]), dp: vt.Str(m["dp"]), fam: vt.Str(m["fam"]), how: vt.Str(m["how"]), def: vt.Bool(m["def"]),
-		multi: vt.Bool(m["multi"]), trunk: vt.Bool(m["trunk"]), peer: vt.Bool(m["peer"])}
+		multi: vt.Bool(m["multi"]), trunk: vt.Bool(m["trunk"]), peer: vt.Bool(m["peer"]), keep: vt.Bool(m["keep"])}
 }
 
 // dpStepRec is the abstract scenario step as it came in (kept in the trace so that a recorded scenario can be driven again).
 func dpStepRec(st dpStep) vt.M {
 	return vt.M{"a": st.a, "p": st.p, "i": st.i, "dp": st.dp, "fam": st.fam, "eni": st.eni, "def": st.def, "multi": st.multi, "extra": st.extra,
-		"trunk": st.trunk, "aset": st.aset, "peer": st.peer, "how": st.how}
+		"trunk": st.trunk, "aset": st.aset, "peer": st.peer, "how": st.how, "keep": st.keep}
 }
 
 func dpReadScenarios(t *testing.T) [][]dpStep {
@@ -163,9 +164,14 @@ var (
 )
 
 // dpConfig builds the SetupConfig the CNI would hand to the datapath for this step (the fields parseSetupConf and cmdAdd fill in).
-func dpConfig(st dpStep, eniIndex int) *types.SetupConfig {
+// addr, when not nil, is an address handed over from an earlier pod: the families and the addresses are taken from it, the gateway
+// and everything else from the ENI of this step.
+func dpConfig(st dpStep, eniIndex int, addr *terwayTypes.IPNetSet) *types.SetupConfig {
 	sub := dpPlan(st.aset, st.eni)
 	v4, v6 := st.fam != "v6", st.fam != "v4"
+	if addr != nil {
+		v4, v6 = addr.IPv4 != nil, addr.IPv6 != nil
+	}
 	k := 16*st.p + st.i + 1
 	cfg := &types.SetupConfig{
 		HostVETHName:    fmt.Sprintf("cali%02d%02d", st.p, st.i),
@@ -188,6 +194,9 @@ func dpConfig(st dpStep, eniIndex int) *types.SetupConfig {
 	if v4 {
 		// parseSetupConf / BuildIPNet hand over the 16-byte form net.ParseIP produces
 		cfg.ContainerIPNet.IPv4 = &net.IPNet{IP: net.ParseIP(dpHostN(sub.net4, k).String()), Mask: sub.net4.Mask}
+		if addr != nil {
+			cfg.ContainerIPNet.IPv4 = addr.IPv4
+		}
 		cfg.GatewayIP.IPv4 = net.ParseIP(sub.gw4.String())
 		cfg.ServiceCIDR.IPv4 = dpSvc4
 		cfg.HostIPSet.IPv4 = dpHost4
@@ -198,6 +207,9 @@ func dpConfig(st dpStep, eniIndex int) *types.SetupConfig {
 	}
 	if v6 {
 		cfg.ContainerIPNet.IPv6 = &net.IPNet{IP: dpHostN(sub.net6, k), Mask: sub.net6.Mask}
+		if addr != nil {
+			cfg.ContainerIPNet.IPv6 = addr.IPv6
+		}
 		cfg.GatewayIP.IPv6 = sub.gw6
 		cfg.ServiceCIDR.IPv6 = dpSvc6
 		cfg.HostIPSet.IPv6 = dpHost6
@@ -564,7 +576,7 @@ func dpInitialDump(nPods int) []vt.M {
 // dpSetupL1 calls the generators the way the Setup function of the datapath does and returns the projected links and configurations.
 func (w *dpStubWorld) setupL1(st dpStep) (cfgRec vt.M, links []vt.M, confs []vt.M) {
 	eni := w.enis[st.eni]
-	cfg := dpConfig(st, eni.Attrs().Index)
+	cfg := dpConfig(st, eni.Attrs().Index, nil)
 	pod := st.p
 	slaveName := ""
 	switch st.dp {
@@ -651,7 +663,7 @@ func dpRandomScenarios(n int, level int) [][]dpStep {
 			p := 1 + rng.Intn(3)
 			if live[p] && (level == 2 || rng.Intn(3) == 0) {
 				if level == 2 {
-					sc = append(sc, dpStep{a: "teardown", p: p, how: []string{"cni", "cni", "dp"}[rng.Intn(3)]})
+					sc = append(sc, dpStep{a: "teardown", p: p, how: []string{"cni", "dp", "generic", "generic"}[rng.Intn(4)]})
 					delete(live, p)
 				}
 				continue
@@ -662,7 +674,8 @@ func dpRandomScenarios(n int, level int) [][]dpStep {
 			dp := dps[rng.Intn(len(dps))]
 			multi := rng.Intn(3) == 0
 			e := 1 + rng.Intn(2)
-			st := dpStep{a: "setup", p: p, i: 0, dp: dp, fam: fam, eni: e, def: true, multi: multi, extra: rng.Intn(3), aset: aset, peer: rng.Intn(4) != 0}
+			st := dpStep{a: "setup", p: p, i: 0, dp: dp, fam: fam, eni: e, def: true, multi: multi, extra: rng.Intn(3), aset: aset, peer: rng.Intn(4) != 0,
+				keep: level == 2 && rng.Intn(2) == 0}
 			st.trunk = (dp == "policy" || dp == "ipvlan") && trunkENI[e]
 			sc = append(sc, st)
 			if multi {
@@ -829,6 +842,7 @@ type dpRealWorld struct {
 	pods   map[int]*dpPod
 	eniIdx map[int]int // shared stand-in ENIs: number -> ifindex in the host namespace
 	nDed   int
+	freed  map[int]*terwayTypes.IPNetSet // pod slot -> address of the slot's last pod (first interface), after its teardown
 }
 
 func (rw *dpRealWorld) must(err error, what string) {
@@ -860,7 +874,7 @@ func (rw *dpRealWorld) addENI(name string) int {
 
 // newRealWorld turns the (private) namespace the test runs in into a node: lo, eth0 with the node addresses and default routes, two ENIs.
 func newRealWorld(t *testing.T) *dpRealWorld {
-	rw := &dpRealWorld{t: t, pods: map[int]*dpPod{}, eniIdx: map[int]int{}}
+	rw := &dpRealWorld{t: t, pods: map[int]*dpPod{}, eniIdx: map[int]int{}, freed: map[int]*terwayTypes.IPNetSet{}}
 	var err error
 	rw.host, err = ns.GetCurrentNS()
 	rw.must(err, "host ns")
@@ -946,7 +960,14 @@ func (rw *dpRealWorld) prepare(st dpStep) int {
 // setup runs the real Setup of the datapath for one attachment, preceded by what cmdAdd does before it (host sysctls).
 func (rw *dpRealWorld) setup(st dpStep, eniIndex int) (vt.M, error) {
 	pod := rw.pods[st.p]
-	cfg := dpConfig(st, eniIndex)
+	var addr *terwayTypes.IPNetSet
+	if st.keep && st.i == 0 {
+		addr = rw.freed[st.p]
+	}
+	if st.i == 0 {
+		delete(rw.freed, st.p)
+	}
+	cfg := dpConfig(st, eniIndex, addr)
 	eniName := rw.linkName(eniIndex)
 	rec := dpCfgRec(st, cfg, eniName, "")
 	ctx := context.Background()
@@ -977,13 +998,22 @@ func (rw *dpRealWorld) setup(st dpStep, eniIndex int) (vt.M, error) {
 
 // teardown does what cmdDel does for the pod: GenericTearDown of the pod namespace, then the datapath's Teardown per attachment with
 // the TeardownCfg parseTearDownConf builds (no host veth name). how = "dp": only PolicyRoute.Teardown, with the host veth name set.
+// how = "generic": only GenericTearDown, which is where cmdDel stops when the daemon has no allocation record of the pod.
 func (rw *dpRealWorld) teardown(p int, how string) error {
 	pod := rw.pods[p]
 	ctx := context.Background()
+	for k, st := range pod.steps {
+		if st.i == 0 {
+			rw.freed[p] = pod.cfgs[k].ContainerIPNet
+		}
+	}
 	if how != "dp" {
 		if err := utils.GenericTearDown(ctx, pod.ns); err != nil {
 			return fmt.Errorf("GenericTearDown: %w", err)
 		}
+	}
+	if how == "generic" {
+		return nil
 	}
 	var cfgs []*types.SetupConfig
 	for k, cfg := range pod.cfgs {
@@ -1118,7 +1148,7 @@ func TestVerifDatapathL2(t *testing.T) {
 				}
 				how := st.how
 				for _, s := range rw.pods[st.p].steps {
-					if s.dp != "policy" {
+					if s.dp != "policy" && how == "dp" {
 						how = "cni" // only the policy-route datapath has a Teardown of its own
 					}
 				}
